@@ -56,6 +56,16 @@ class CsFn(Case):
                 a2 = it.call(cstruct._make_array, [cs, e2, cnt])
                 a1b = it.call(cstruct._make_array, [cs, e1, cnt])
                 ctx.prove(f"same-name-elements[{cnt}]/type-is-argument", a1.type is e1 and a2.type is e2 and a1b.type is e1)
+            # the array class describes the element type as it is at the call: an element structure that grew since an earlier
+            # request gives a bigger array
+            from dissect.cstruct.types.structure import Field
+
+            S = cs._make_struct("grow", [Field("a", cs.uint8), Field("b", cs.uint8)])
+            g1 = it.call(cstruct._make_array, [cs, S, 2])
+            ctx.prove("growing-element/before", g1.size == 4 and g1.type is S)
+            S.add_field("c", cs.uint16)
+            g2 = it.call(cstruct._make_array, [cs, S, 2])
+            ctx.prove("growing-element/size-follows-the-element-type", g2.size == 2 * len(S) == 8 and g2.type is S, info=f"size {g2.size} for 2 x {len(S)}")
         elif w == "make_pointer":
             for pn in ("uint8", "uint16", "uint32", "uint64"):
                 c2 = cstruct(pointer=pn)
